@@ -64,6 +64,10 @@ def instances(tier):
         out.append(('line2', g2, dict(fam='simple_n', T=2, ne=True, width=1, **NOSYM), [('match', 2), ('widen', 2)], {}))
         out.append(('oneway3', g3, dict(fam='simple', T=3, ne=False, sym_maxdist=True, sym_init=False, sym_minprob=False),
                     [('match', 3), ('continue', 1, 1)], {}))
+        # a non-emitting layer wider than the width whose postponed entries have successors of their own, then widening
+        FORKD = {"A": ["B"], "B": ["C", "D"], "C": ["E"], "D": ["F"], "E": [], "F": []}
+        out.append(('fork_deep', FORKD, dict(fam='simple', T=2, ne=True, width=1, **NOSYM), [('match', 2), ('widen', 2)], {}))
+        out.append(('fork_deep', FORKD, dict(fam='simple_n', T=2, ne=True, width=1, **NOSYM), [('match', 2), ('widen', 3)], {}))
         # the same histories with the logger at DEBUG (stopped candidates are then filed in the lattice and must stay inert)
         gap = {"A": ["B"], "B": [], "C": ["D"], "D": []}
         for fam in ('simple', 'dist'):
